@@ -39,7 +39,7 @@ def gen_cases(tier, seed):
         maxchain = 0
         for j in range(nl):
             cls = r.choice(["file-rel", "file-abs", "file-out", "dir-in", "dir-out", "dir-out-abs", "chain", "chain", "dangling", "cycle", "deep-link",
-                            "dir-otherfs", "file-otherfs", "chain-otherfs", "same-name", "same-name", "into-dest"])
+                            "dir-otherfs", "file-otherfs", "chain-otherfs", "same-name", "same-name", "into-dest", "deep-dir-out"])
             nm = "src/L%d" % j if r.random() < 0.6 else "src/sub/L%d" % j
             up = "" if nm.count("/") == 1 else "../"
             if cls == "file-rel":
@@ -78,6 +78,17 @@ def gen_cases(tier, seed):
                 for dp in ("src/x", "src/sub/x"):
                     if not any(e["p"] == dp for e in spec):
                         spec.append(F(dp, 33, r.randrange(1, 1 << 30)))
+            elif cls == "deep-dir-out":
+                # a link to a directory whose tree goes dozens of levels down (nothing to do with how many links the kernel follows)
+                cur = "out/dp%d" % j
+                spec.append({"p": cur, "k": "d"})
+                for lv in range(1, r.choice([42, 45, 70]) + 1):
+                    cur += "/n"
+                    spec.append({"p": cur, "k": "d"})
+                    if lv in (1, 38, 39, 40, 41, 42) or lv % 23 == 0:
+                        spec.append(F(cur + "/f%d" % lv, 10 + lv, r.randrange(1, 1 << 30)))
+                spec.append(F(cur + "/bottom", 7, r.randrange(1, 1 << 30)))
+                spec.append({"p": nm, "k": "l", "target": up + "../out/dp%d" % j})
             elif cls == "chain":
                 ln = r.choice([1, 2, 3, 8, 38]) if tier == "thorough" or r.random() < 0.3 else r.choice([1, 2, 3, 8])
                 maxchain = max(maxchain, ln)
@@ -178,8 +189,8 @@ def resolved_model(root, src):
     base = os.path.join(b(root), b(src))
 
     def walk(real, rel, depth):
-        if depth > 60:
-            raise OSError("too deep")
+        if depth > 400:
+            raise OSError("too deep")      # (a directory loop through links: the real trees here are at most ~80 levels deep)
         st = os.stat(real)           # follows links; raises for dangling / loops
         if stat.S_ISDIR(st.st_mode):
             out[rel] = ("d",)
